@@ -444,7 +444,9 @@ func (c16) Decode(raw json.RawMessage) (interface{}, error) {
 const (
 	c16NSStream = "http://etherx.jabber.org/streams"
 	c16Probe    = "<message from='a@b' to='comp.localhost'><body>probe</body></message>"
-	c16Wait     = 4 * time.Second
+	// c16Wait only bounds a genuine hang: nothing in a sound run waits for it to expire, so it is
+	// generous (a loaded or CPU-throttled machine can stall a goroutine for seconds)
+	c16Wait = 30 * time.Second
 )
 
 type c16BadHeader struct{ name, wire string }
@@ -483,6 +485,7 @@ type c16Srv struct {
 	gotOpen      bool
 	text         string // character data of the component's <handshake> element
 	gotText      bool   // the component sent a complete first element
+	hungUp       bool   // the accepted connection was closed by the peer before any stream header
 	notHandshake string // set when that element is not a childless jabber:component:accept handshake
 	note         string // "" or a timeout/error marker that must not occur in a sound run
 	probeSent    bool
@@ -577,6 +580,14 @@ func c16Serve(ln net.Listener, in c16In, atProlog <-chan struct{}, released chan
 	dec := xml.NewDecoder(conn)
 	if open, _, _, ok := c16NextStart(conn, dec, deadline); !ok || open.Name.Space != c16NSStream || open.Name.Local != "stream" {
 		res.note = "server: no stream header from the component"
+		if !ok {
+			// what the read ended with (EOF: the peer connected and hung up; timeout: it stayed silent)
+			conn.SetReadDeadline(time.Now().Add(50 * time.Millisecond))
+			if _, err := dec.Token(); err != nil {
+				res.note += " (" + err.Error() + ")"
+				res.hungUp = err == io.EOF || strings.Contains(err.Error(), "EOF")
+			}
+		}
 		return
 	}
 	res.gotOpen = true
@@ -712,7 +723,7 @@ func (c16) Run(inp interface{}) Sx {
 	}
 	ln, err := listenLoopback()
 	if err != nil {
-		return L(SBytes("HARNESS"), SBytes(err.Error()))
+		return L(SBytes("listen-failed"), SBytes(err.Error()))
 	}
 	addr := ln.Addr().String()
 	srv := &c16Srv{}
@@ -790,6 +801,10 @@ func (c16) Run(inp interface{}) Sx {
 		go cleanup()
 		return c16Timeout("Connect did not return")
 	}
+	if c16DialTimedOut(cerr) {
+		cleanup()
+		return L(SBytes("dial-timeout"), SBytes(in.Pre))
+	}
 	errCode := c16ErrCode(cerr)
 	// the probe: wait long when Connect reported success, briefly otherwise (nothing is
 	// running that could deliver it; the bytes are already in the component's socket)
@@ -829,11 +844,20 @@ func c16ErrCode(err error) int64 {
 	return 3
 }
 
+// c16DialTimedOut: the only deadline in the component's connect path is the dial timeout
+// (ConnectTimeout = 1 s here, kept short because XMPPTransport.Close waits that long).  A
+// loopback dial to a live listener that takes longer is the sandbox (CPU starvation), not
+// the library: the case is reported as an infrastructure failure and run again by main.go.
+func c16DialTimedOut(err error) bool {
+	var ne net.Error
+	return err != nil && errors.As(err, &ne) && ne.Timeout()
+}
+
 // c16RunReconnect: ONE Component value, one listener, len(Sessions) connections in a row.
 func c16RunReconnect(in c16In) Sx {
 	ln, err := listenLoopback()
 	if err != nil {
-		return L(SBytes("HARNESS"), SBytes(err.Error()))
+		return L(SBytes("listen-failed"), SBytes(err.Error()))
 	}
 	defer ln.Close()
 	probe := make(chan struct{}, 8)
@@ -895,6 +919,10 @@ func c16RunReconnect(in c16In) Sx {
 			end <- "drop"
 			go disconnect()
 			return c16Timeout(fmt.Sprintf("connection %d: Connect/Resume did not return", k+1))
+		}
+		if c16DialTimedOut(cerr) {
+			disconnect()
+			return L(SBytes("dial-timeout"), SBytes(fmt.Sprintf("connection %d", k+1)))
 		}
 		wait := 40 * time.Millisecond
 		if cerr == nil {
